@@ -25,6 +25,7 @@ def run(ctx, chk):
     chk.rule("C13.R2", "unknown macro name is rejected without emitting anything", floor=1)
     chk.rule("C13.R3", "errors inside an expansion are reported at the use site", floor=1)
     chk.rule("C13.R4", "nesting depth of macro expansion is bounded", floor=1)
+    chk.rule("C13.R8", "a chain of 64 nested macro uses is still expanded (the depth test counts the open expansions correctly)", floor=1)
     chk.rule("C13.R5", "definition and use agree on the placeholder syntax", floor=1)
     chk.rule("C13.R7", "a macro argument is substituted in a form the assembler can read back", floor=4)
     chk.rule("C13.R6", "parameters are matched as whole words: the pattern is \\b<one name or a group>\\b", floor=1)
@@ -81,6 +82,27 @@ def run(ctx, chk):
             chk.violation("C13.R3", label, "expansion-error-not-at-use-site", f"{label}: an error inside the expansion is not re-raised with the position of the macro use", where)
         else:
             chk.violation("C13.R3", label, "expansion-error-ignored", f"{label}: the result of the nested parse is not examined for errors", where)
+        # R8 how deep a chain is still accepted: the size test sees the open expansions, with or without the current one
+        import re as _re
+        depths = set()
+        for q in parse_paths:
+            ins_lines = [int(e.line) for e in q.effects if e.kind == "map" and "macro_nesting" in (e.target or "") and e.op in ("insert", "push") and str(getattr(e, "line", "")).isdigit()]
+            for c in q.conds:
+                m_ = _re.search(r"macro_nesting\w*\.len\(\)\s*(>=|>)\s*(\d+)", c[0])
+                if m_ and c[1] is False and len(c) > 2 and c[2] is not None and ins_lines:
+                    k_ = int(m_.group(2)) + (1 if m_.group(1) == ">" else 0)
+                    after_insert = int(c[2]) > min(ins_lines)
+                    depths.add(k_ - 1 if after_insert else k_)
+        if len(depths) == 1:
+            d_ = next(iter(depths))
+            if d_ >= 64:
+                chk.ok("C13.R8", label, f"chains of up to {d_} nested macro uses are expanded")
+            else:
+                chk.violation("C13.R8", label, "nesting-limit-below-64",
+                              f"{label}: the size test of the nesting set lets at most {d_} nested uses through (it is made after the current macro was inserted, or against a smaller "
+                              f"constant): a valid acyclic chain of 64 macros is rejected as 'too deep'", where)
+        elif parse_paths and depth_bound:
+            chk.undecided_("C13.R8", label, "the form of the depth test is not `set.len() >= K` / `> K` on the expanding path")
         # R4
         if parse_paths:
             if depth_bound:
